@@ -527,7 +527,11 @@ func pEdit(args []string) string {
 	if len(inner2.Blocks) == 0 || uint64(inner2.Blocks[0].Size) != bs {
 		return "FAIL block-size-changed"
 	}
-	if inner2.Length < oldLen || (inner2.Length-oldLen)%bs != 0 || inner2.Length != bs*uint64(inner2.Blocks[0].Count) ||
+	total := uint64(0) // the block map (all entries) covers the volume
+	for _, b := range inner2.Blocks {
+		total += uint64(b.Count) * uint64(b.Size)
+	}
+	if inner2.Length < oldLen || (inner2.Length-oldLen)%bs != 0 || inner2.Length != total ||
 		uint64(len(inner2.Buf())) != inner2.Length {
 		return fmt.Sprintf("FAIL inner-length %x old %x bs %x count %x", inner2.Length, oldLen, bs, inner2.Blocks[0].Count)
 	}
